@@ -1,4 +1,18 @@
-"""C13 — the on-disk compilation cache is deterministic and crash-safe."""
+"""C13 — the on-disk compilation cache is deterministic and crash-safe.
+
+Proofs: coq/Properties/C13.v (codec: round trip, every strict prefix rejected, other versions never accepted;
+directory: crash safety of Add for every interleaving / crash point, failure path cleans up).
+Tie (harness/c13):
+  codec   the real serializeCompiledModule / deserializeCompiledModule (overlay export) on random records: bytes,
+          the complete read, EVERY truncation length and version / byte-patch probes are re-computed by the model
+          inside Coq (Rt.CacheCodec.mismatches);
+  fs      child processes compiling through wazero.NewCompilationCacheWithDir: one per crash point of fileCache.Add
+          (hooks of the `verif` build), injected write errors (RLIMIT_FSIZE), 2-3 concurrent processes on one key
+          with hook crashes and SIGKILLs, three fresh processes per module (determinism), truncated / other-version /
+          corrupted entries planted under the final name; every directory listing is compared with the state of
+          Rt.CacheFs (fs_mismatches) and every planted entry with the codec model (p_mismatches).
+Oracle (Python only, no model): a file under a final name always equals the entry of an undisturbed run and parses;
+a later process always compiles and runs correctly; truncated / other-version / corrupted-code entries are never used."""
 import base64, json, os, shutil, tempfile
 from concurrent.futures import ThreadPoolExecutor
 from vcheck import *
@@ -7,7 +21,8 @@ VER = b"dev"          # version.GetWazeroVersion() of a harness build (main modu
 MAGIC = b"WAZEVO"
 # the harness runs with a 4 GB address-space limit: a changed reader that believes a corrupted function count
 # would otherwise allocate tens of gigabytes (the box has no swap)
-LIMIT = ["prlimit", "--as=4000000000", "--"]
+LIMIT = (["prlimit", "--as=4000000000", "--"] if shutil.which("prlimit")
+         else ["bash", "-c", 'ulimit -v 3906250; exec "$@"', "--"])
 
 
 # ------------------------------------------------------------------------------------------------
@@ -261,6 +276,15 @@ def coq_fcase(kind, ename, nwriters, evs, fs, entry):
     return "(%d, [%s], [%s], %s, %s)" % (kind, "; ".join([ename] * nwriters), "; ".join(evs), f, t)
 
 
+def point_class(ev):
+    """crash point / disturbance of an event without its numbers (keeps the signatures few)"""
+    if ev["kind"] == "conc":
+        ks = sorted(set(x.split(":")[0] for x in (ev.get("what") or "").split(",") if x))
+        if any(ev.get("kills") or []): ks.append("sigkill")
+        return "+".join(ks) or "undisturbed"
+    return ev.get("point") or ev.get("what")
+
+
 def run(tier, seed):
     ck = Check("C13", tier, seed)
     ck.trusted += ["hand transcription of serializeCompiledModule/deserializeCompiledModule (coq/Rt/CacheCodec.v) and of fileCache.Add (coq/Rt/CacheFs.v), tied by the correspondence run",
@@ -273,9 +297,9 @@ def run(tier, seed):
                        "entries without code (modules with no local function): an entry cut inside its last 4 bytes is still accepted and yields the identical code-less module (C13_prefix_no_code_exact)"]
     proofs_ok = ck.proofs()
     if tier == "quick":
-        ncodec, nmods, nconc = 40, 4, 6
+        ncodec, nmods, nconc, ncopies = 40, 4, 6, 2
     else:
-        ncodec, nmods, nconc = 600, 40, 24
+        ncodec, nmods, nconc, ncopies = 600, 40, 24, 16
     binp, log = build_harness("c13")
     if not binp:
         ck.violation("harness-build", {"kind": "build"}, {"log": log[-3000:]}, no_input=True)
@@ -365,7 +389,7 @@ def run(tier, seed):
     # ---------------------------------------------------------------- (b)-(e) directory
     base = tempfile.mkdtemp(prefix="c13_", dir=WORK)
     try:
-        rc, out = sh(LIMIT + [binp, "-mode", "fs", "-seed", str(seed), "-dir", base, "-mods", str(nmods), "-conc", str(nconc)], timeout=3000)
+        rc, out = sh(LIMIT + [binp, "-mode", "fs", "-seed", str(seed), "-dir", base, "-mods", str(nmods), "-conc", str(nconc), "-copies", str(ncopies)], timeout=3000)
     finally:
         shutil.rmtree(base, ignore_errors=True)
     evs = [json.loads(ln) for ln in out.split("\n") if ln.startswith("{")]
@@ -400,8 +424,8 @@ def run(tier, seed):
         name, entry = refs[m]
         L, en = len(entry), "e%d" % m
         for cls, text in fs_oracle(ev, refs[m])[:3]:
-            report("property-fails", {"kind": "property-fails", "part": "fs", "class": cls, "event": ev["kind"],
-                                      "point": ev.get("point") or ev.get("what")}, {"oracle": text, "event": ev})
+            report("property-fails", {"kind": "property-fails", "part": "fs", "class": cls, "event": ev["kind"], "point": point_class(ev)},
+                   {"oracle": text, "event": ev})
         if ev["kind"] == "crash":
             k = ev["point"] + (":%d" % ev["n"] if ev["point"] == "copy" else "")
             dist["crash_points"][ev["point"]] = dist["crash_points"].get(ev["point"], 0) + 1
@@ -465,7 +489,7 @@ def run(tier, seed):
             code = {1: "final name differs from the model's state", 2: "temp files differ from the model's state",
                     3: "final name holds something no writer wrote completely", 4: "a temp file is not a prefix of a writer's content"}.get(lst[i + 1], str(lst[i + 1]))
             report("model-differs", {"kind": "model-differs", "part": "fs", "class": "directory-state", "event": ev["kind"],
-                                     "point": ev.get("point") or ev.get("what"), "code": lst[i + 1]},
+                                     "point": point_class(ev), "code": lst[i + 1]},
                    {"where": label, "why": code, "event": ev}, no_input=not any(fs_oracle(ev, refs[ev["mod"]])))
     if pcases:
         v = head + ("Definition cases : list pcase := [\n" + ";\n".join(pcases) + "].\n"
